@@ -28,7 +28,7 @@ def check(ctx) -> Result:
         "dictionary. Not decided: the permanent itself (thewalrus), factorial arithmetic, unit norm."
     )
     res.assumptions = ["thewalrus.perm computes the permanent", "qualifier tables of rb_states.py (documented spaces of public parameters)"]
-    n = rb_states.run(ctx, res, only=["Simulator.", "Backend.probability"])
+    n = rb_states.run(ctx, res, only=["Simulator.", "Backend.probability"], rules={"B1-backend-arguments", "B1-loss-padding", "B2-fock-basis-spaces", "B3-herald-side", "B5-counts-same-space", "B6-shortcut-guard-space"})
     res.floor("B resolved sink checks (simulator)", n, 8)
     sim = ctx.ix.module(SIM).classes.get("Simulator")
     if sim is None:
@@ -114,4 +114,9 @@ def check(ctx) -> Result:
     loops = [l for l in walk_no_nested(ah.node) if isinstance(l, ast.For)]
     res.add(bool(loops) and all(src(l.iter).startswith("range(") for l in loops), "L-herald-insertion-by-position", "add_heralds_to_state", ah.site(), ah.qualname, "herald insertion walks mode positions (independent of dictionary order)",
             "herald insertion iterates the herald dictionary (order dependent)", construct=src(loops[0].iter) if loops else "")
+    from ..rules import rf_cache as _rf
+    n7 = 0
+    for _cn in ['Simulator']:
+        n7 += _rf.f7_setters_store_the_object(ctx, res, ctx.ix.cls(_cn))
+    res.floor("F7 setter stores", n7, 1)
     return res
